@@ -31,7 +31,7 @@ theorem exQuiet : Quiet exSt 0 :=
 theorem pendingTP_bam_timer (n : Node) (i : Nat) (hb : (n.tp i).pend.dst = 255) (hp : (n.tp i).pend.pgn ≠ 0)
     (ht : (n.tp i).timer.isTime n.s.flavor n.s.now = true) :
     (pendingTP n i).s.now = n.s.now ∧ (pendingTP n i).s.flavor = n.s.flavor ∧
-    (((pendingTP n i).tp i).pend.pgn = 0 ∨ ((pendingTP n i).tp i).timer = Sched.fromNow n.s.flavor n.s.now 50) := by
+    (((pendingTP n i).tp i).pend.pgn = 0 ∨ ((pendingTP n i).tp i).timer = Sched.fromNow n.s.flavor n.s.now n.bamGap) := by
   unfold pendingTP
   simp only [hp, ne_eq, not_false_eq_true, ht, and_self, ↓reduceIte, hb]
   have hc := sendMsg_clock (n.setTp i { n.tp i with nextSeq := ((n.tp i).nextSeq + 1) % 256 }).s
